@@ -148,9 +148,9 @@ def run(out):
                        'known findings: F19 (multi-line text + children), F27 (leaf with forced inner break whose open tag is inside a line)',
                        'tag lexer trusted']
     base = dict(Names=set(), Implicits=set(), Voids=set(), Reps={2}, MaxGroups=1, MaxReps=1)
-    insts = [('forms-exhaustive', dict(constants=dict(base, MaxTok=3 if quick else 4, FormIdx=set(range(1, 22))))),
+    insts = [('forms-exhaustive', dict(constants=dict(base, MaxTok=3 if quick else 4, FormIdx=set(range(1, 23))))),
              ('forms-deep', dict(constants=dict(base, MaxTok=6 if quick else 8, MaxGroups=0, FormIdx={1, 5, 9, 12, 16} if quick else {1, 5, 9, 10, 12, 16}))),
-             ('forms-simulated', dict(constants=dict(base, MaxTok=18 if quick else 30, MaxGroups=2, MaxReps=2, FormIdx=set(range(1, 22))),
+             ('forms-simulated', dict(constants=dict(base, MaxTok=18 if quick else 30, MaxGroups=2, MaxReps=2, FormIdx=set(range(1, 23))),
                                       simulate=3 if quick else 60, depth=22 if quick else 36, seed=out.seed))]
     _grammar_layout(out, quick)
     tid0 = 0
